@@ -4,10 +4,12 @@
 //   cfg  mode perm engines        mode 0 = one runLoop(kForever) driven by a tick re-posted with runNext per pass, 1 = runLoop(kOnce) per pass with a
 //                                 pending runNext; perm = order of the watched descriptor NUMBERS (select serves ready
 //                                 descriptors in ascending number); engines 0 = epoll then select, 1 = epoll only, 2 = select only
+//                                 perm / 120 (round 7): 0 = nothing, 1..5 = one watched end is moved to descriptor number 0 for the case
+//                                 (the process's stdin is saved with dup and restored at the end of the case)
 //   fd   kind                     a descriptor pair: 0 = pipe, read end watched; 1 = pipe, write end watched; 2 = unix socketpair
 //   ev   fd mask oneshot state    state 0 enabled, 1 disabled, 2/3 the same but initialize() is called twice: first with the
 //                                 other mode, then with the requested one ("changed my mind" directly after the first initialize)
-//   (ev, continued)               an initial event (mask 0=R 1=W 2=R|W 3=none; on a watched pipe write end R is dropped)
+//   (ev, continued)               an initial event (mask 0=R 1=W 2=R|W 3=none, 4..7 = R|E W|E R|W|E E with kExceptEvent subscribed too; on a watched pipe write end R is dropped)
 //   pass                          starts the script of the next loop pass (ops before the first `pass` belong to pass 0)
 //   intr d                        (after pass/rdy/out ops of a pass) the wait of this pass is INTERRUPTED by a handled signal:
 //                                 if no enabled event has its descriptor ready, the loop really blocks in epoll_wait/select
@@ -81,8 +83,10 @@ enum Rdy { R_WRITE, R_DRAIN, R_FILL, R_UNFILL, R_CLOSEPEER, NRDY };
 enum Act { A_DISABLE_SELF, A_ENABLE, A_DISABLE, A_DESTROY, A_CREATE, A_REPLACE, A_CLOSEFD, A_READ, A_REINIT, A_REMODE, A_RECYCLE, NACT };
 enum TK { T_SAMEFD, T_HOT, T_COLD, T_RAW, T_SELF, NTK };
 const int kMaxFds = 5, kMaxInitEv = 8, kMaxEv = 16, kMaxPasses = 12, kMaxStepsPerPass = 12, kMaxCbPerEv = 8;
-const int kR = FdEvent::kReadEvent, kW = FdEvent::kWriteEvent;
-const int kMaskTab[4] = {kR, kW, kR | kW, 0};
+const int kR = FdEvent::kReadEvent, kW = FdEvent::kWriteEvent, kE = FdEvent::kExceptEvent;
+// masks 4..7 (round 7) add kExceptEvent to the SUBSCRIPTION; an exceptional condition itself is never produced on purpose
+// (the only one that occurs is POLLERR on a pipe write end without reader, see "err" below)
+const int kMaskTab[8] = {kR, kW, kR | kW, 0, kR | kE, kW | kE, kR | kW | kE, kE};
 // Known clean-tree defect (proposed-fixes/04): FdEvent::initialize() never clears the one-shot flag, so an object that
 // was ever initialised as kOneshot stays one-shot when it is re-initialised as kPersist (both back-ends).  While the
 // fix is not in the tree, a re-initialisation that asks for kPersist on such an object asks for kOneshot instead
@@ -100,6 +104,7 @@ struct DStep { bool is_rdy; int fdi, what, n; DAct act; };
 struct DCb { int firing; DAct act; };
 struct Def {
   int mode = 0, perm = 0, engines = 0;
+  int zero = 0;   // 1..5: descriptor (zero-1) mod #descriptors is moved to descriptor NUMBER 0 for the case (perm / 120)
   std::vector<int> kinds;
   std::vector<DEv> evs;
   std::vector<std::vector<DStep>> passes;
@@ -108,7 +113,7 @@ struct Def {
   std::vector<DCb> cbs[kMaxEv];
 };
 
-int fix_mask(int kind, int mask) { return (kind == PIPE_W && mask) ? kW : mask; }
+int fix_mask(int kind, int mask) { return (kind == PIPE_W && (mask & (kR | kW))) ? ((mask & kE) | kW) : mask; }
 
 Def parse(const Scenario &s) {
   Def d;
@@ -122,10 +127,10 @@ Def parse(const Scenario &s) {
     switch (op.code) {
       case CFG:
         if (cfg_seen) break;
-        cfg_seen = true; d.mode = (int)op.in(0, 0, 1); d.perm = (int)op.in(1, 0, 119); d.engines = (int)op.in(2, 0, 2); break;
+        cfg_seen = true; d.mode = (int)op.in(0, 0, 1); d.perm = (int)op.in(1, 0, 719) % 120; d.zero = (int)op.in(1, 0, 719) / 120; d.engines = (int)op.in(2, 0, 2); break;
       case EV: {
         if ((int)d.evs.size() >= kMaxInitEv) break;
-        DEv e; e.fdi = (int)op.in(0, 0, nf - 1); e.mask = fix_mask(d.kinds[e.fdi], kMaskTab[op.in(1, 0, 3)]);
+        DEv e; e.fdi = (int)op.in(0, 0, nf - 1); e.mask = fix_mask(d.kinds[e.fdi], kMaskTab[op.in(1, 0, 7)]);
         e.oneshot = op.in(2, 0, 1) != 0; e.enabled = (op.in(3, 0, 3) & 1) == 0; e.twice = (op.in(3, 0, 3) & 2) != 0;
         d.evs.push_back(e); break; }
       case PASS: if ((int)d.passes.size() < kMaxPasses) { d.passes.emplace_back(); d.intr.push_back(0); } break;
@@ -180,6 +185,7 @@ struct Flags {   // shape of the case (both back-ends or'ed)
   bool remode_to_oneshot = false, remode_to_persist = false, remode_same = false, remode_second_life = false, remode_fresh = false, remode_in_cb = false, init_twice = false;
   bool recycle_in_cb = false, recycle_outside = false, close_before_retire = false, rewatch_old_object = false, new_event_old_alive = false, cb_on_recycled = false, obligations = false;
   bool remask = false, remask_in_cb = false, remask_sibling_in_cb = false, remask_pending_sibling_loses_ready_condition = false, remask_to_not_ready_condition = false;
+  bool except_mask = false, e_retired_w_sibling = false, fd0 = false, cb_on_fd0 = false;
   bool intr_blocked = false, intr_eintr = false, intr_with_enabled_idle = false, intr_not_blocking = false;
   int callbacks = 0;
 };
@@ -230,7 +236,7 @@ struct Run {
 
   void fail(const std::string &m) { if (err.empty()) err = std::string(engine) + ", pass " + std::to_string(pass) + ": " + m; }
   std::string evname(const Rec &r) const {
-    char b[96]; snprintf(b, sizeof b, "event %d (descriptor %d, mask %s%s%s)", r.idx, r.fdi, (r.mask & kR) ? "R" : "", (r.mask & kW) ? "W" : "", r.oneshot ? ", one-shot" : "");
+    char b[96]; snprintf(b, sizeof b, "event %d (descriptor %d, mask %s%s%s%s)", r.idx, r.fdi, (r.mask & kR) ? "R" : "", (r.mask & kW) ? "W" : "", (r.mask & kE) ? "E" : "", r.oneshot ? ", one-shot" : "");
     return b;
   }
 
@@ -250,6 +256,7 @@ struct Run {
       if (!open_pair(i, 60 + 8 * rank[i])) return false;
       fds[i].num = fds[i].w;
     }
+    if (d.zero) { move_to_zero((d.zero - 1) % nf); if (!err.empty()) return false; }
     if (d.has_intr) {
       int a[2];
       if (::pipe2(a, O_NONBLOCK | O_CLOEXEC) != 0) { fail("harness: pipe2 failed"); return false; }
@@ -305,10 +312,33 @@ struct Run {
       ::fcntl(a[1], F_SETPIPE_SZ, 4096);
       if (f.kind == PIPE_W) std::swap(a[0], a[1]);
     }
-    f.w = ::fcntl(a[0], F_DUPFD_CLOEXEC, wmin); f.p = ::fcntl(a[1], F_DUPFD_CLOEXEC, 200 + 4 * i);
-    ::close(a[0]); ::close(a[1]);
+    // peer first: pipe2/socketpair may themselves have been given the wanted number (it is the lowest free one when it is 0)
+    f.p = ::fcntl(a[1], F_DUPFD_CLOEXEC, 200 + 4 * i); ::close(a[1]);
+    if (a[0] == wmin) f.w = a[0]; else { f.w = ::fcntl(a[0], F_DUPFD_CLOEXEC, wmin); ::close(a[0]); }
     if (f.w < 0 || f.p < 0) { fail("harness: F_DUPFD failed"); return false; }
     return true;
+  }
+  // ---- descriptor number 0 (round 7): one watched end lives on number 0; stdin is parked on a high number meanwhile
+  int zero_idx = -1, saved0 = -1; bool zero_active = false, parked = false;
+  void move_to_zero(int i) {
+    saved0 = ::fcntl(0, F_DUPFD_CLOEXEC, 300);   // -1 if the process has no descriptor 0
+    if (::dup2(fds[i].w, 0) != 0) { fail("harness: dup2 onto 0 failed"); return; }
+    ::close(fds[i].w); fds[i].w = 0; fds[i].num = 0; zero_idx = i; zero_active = true;
+  }
+  // while the harness descriptor on number 0 is closed for longer than one action, number 0 stays occupied (otherwise the
+  // loop's own eventfd, created per runLoop(), would take it)
+  void park0() {
+    if (!zero_active || parked) return;
+    int src = saved0 >= 0 ? saved0 : ::open("/dev/null", O_RDONLY | O_CLOEXEC);
+    if (src >= 0 && src != 0) { ::dup2(src, 0); if (src != saved0) ::close(src); }
+    parked = true;
+  }
+  void unpark0() { if (parked) { ::close(0); parked = false; } }
+  void restore_zero() {
+    if (!zero_active) return;
+    unpark0();
+    if (saved0 >= 0) { ::dup2(saved0, 0); ::close(saved0); saved0 = -1; }
+    zero_active = false;
   }
   void teardown() {
     disarm();
@@ -319,6 +349,7 @@ struct Run {
     delete loop; loop = nullptr;
     nodelay_close(wk_r); nodelay_close(wk_w);
     for (auto &f : fds) { nodelay_close(f.w); nodelay_close(f.p); }
+    restore_zero();
   }
   static void drain(int fd) { char b[4096]; for (int i = 0; i < 64; ++i) { ssize_t n = ::read(fd, b, sizeof b); if (n <= 0) break; } }
   static void wr(int fd, int n) { while (n > 0) { int c = n > 4096 ? 4096 : n; ssize_t r = ::write(fd, kBytes, c); if (r <= 0) break; n -= (int)r; } }
@@ -351,7 +382,7 @@ struct Run {
       FdSt &f = fds[idx[k]];
       if (p[k].revents & (POLLIN | POLLHUP)) f.snap |= kR;
       if (p[k].revents & POLLOUT) f.snap |= kW;
-      if (p[k].revents & POLLERR) { f.snap |= kR | kW; f.snap_err = true; }   // select reports an error condition as readable and writable
+      if (p[k].revents & POLLERR) { f.snap |= kR | kW | kE; f.snap_err = true; }   // select reports an error condition as readable and writable
       if (p[k].revents & POLLHUP) fl.hup = true;
       if (f.kind != PIPE_R && !(p[k].revents & POLLOUT)) fl.unwritable = true;
       TRACE("snapshot descriptor %d (fd %d kind %d): revents 0x%x -> %s%s", idx[k], f.w, f.kind, (unsigned)p[k].revents, (f.snap & kR) ? "R" : "", (f.snap & kW) ? "W" : "");
@@ -369,7 +400,7 @@ struct Run {
       fail("initialize() of disabled " + evname(t) + " returned false"); return false;
     }
     t.oneshot = oneshot; if (oneshot) t.ever_oneshot = true;
-    t.mask = mask; fds[fdi].passmask |= mask;   // the model takes mask and mode of the last successful initialize()
+    t.mask = mask; fds[fdi].passmask |= mask; if (mask & kE) fl.except_mask = true;   // the model takes mask and mode of the last successful initialize()
     if (pass_open) t.touched_pass = pass;
     return true;
   }
@@ -396,12 +427,19 @@ struct Run {
     if (!t.ev->enable()) fail("enable() of " + evname(t) + " returned false");
     t.enabled = true; if (pass_open) t.touched_pass = pass;
   }
+  // an enabled subscriber of kExceptEvent leaves while the same descriptor has (or it is itself) an enabled write subscriber
+  void note_retire(const Rec &t) {
+    if (!t.enabled || !(t.mask & kE)) return;
+    for (auto &o : evs) if (o->alive && o->fdi == t.fdi && (o->mask & kW) && (o->enabled || o.get() == &t)) fl.e_retired_w_sibling = true;
+  }
   void do_disable(Rec &t) {
+    note_retire(t);
     TRACE("  disable %s", evname(t).c_str());
     if (!t.ev->disable()) fail("disable() of " + evname(t) + " returned false");
     t.enabled = false; if (pass_open) t.touched_pass = pass;
   }
   void do_destroy(Rec &t) {
+    note_retire(t);
     TRACE("  destroy %s", evname(t).c_str());
     delete t.ev; t.ev = nullptr; t.alive = false; t.enabled = false; if (pass_open) t.touched_pass = pass;
     if (--fds[t.fdi].nalive == 0 && in_cb) { freed_this_pass = true; fl.freed_in_cb = true; }
@@ -487,7 +525,7 @@ struct Run {
       case A_CREATE: {
         int f = pick_fd(self, a.tk, a.sel, true); if (f < 0) break;
         bool fresh_record = fds[f].nalive == 0;
-        int mask = fix_mask(fds[f].kind, kMaskTab[a.arg & 3]);
+        int mask = fix_mask(fds[f].kind, kMaskTab[a.arg & 3] | (((a.arg >> 4) & 1) ? kE : 0));
         if (!new_event(f, mask, (a.arg >> 2) & 1, true, (a.arg >> 3) & 1)) break;
         if (self) { fl.created_in_cb = true; if (f != self->fdi) fds[f].targeted = true; if (fresh_record && freed_this_pass) { fl.realloc_after_free = true; fl.nt = true; } }
         break; }
@@ -505,6 +543,7 @@ struct Run {
         for (auto &e : evs) if (e->alive && e->fdi == f) { if (e.get() != self) touch(self, *e, true, false); do_disable(*e); }   // callers disable first
         TRACE("  close descriptor %d", f);
         nodelay_close(fds[f].w);
+        if (f == zero_idx) park0();
         if (self) fl.closefd_in_cb = true;
         break; }
       case A_READ: {
@@ -546,6 +585,7 @@ struct Run {
         nodelay_close(F.w); nodelay_close(F.p);
         if (!retire_first) { retire(); if (had_enabled) fl.close_before_retire = true; }
         // the new pair: the lowest free number >= the old one IS the old one
+        if (f == zero_idx) unpark0();
         if (!open_pair(f, F.num)) break;
         if (F.w != F.num) { fail("harness: the descriptor number was not re-used"); break; }
         F.gen++;
@@ -554,7 +594,7 @@ struct Run {
         if (watch == 3) break;
         if (watch == 2 || old.empty()) {
           if ((int)evs.size() < kMaxEv && !old.empty()) fl.new_event_old_alive = true;
-          new_event(f, fix_mask(F.kind, kMaskTab[sub & 3] ? kMaskTab[sub & 3] : kR), (sub >> 2) & 1, true);
+          new_event(f, fix_mask(F.kind, (kMaskTab[sub & 3] ? kMaskTab[sub & 3] : kR) | (((sub >> 3) & 1) ? kE : 0)), (sub >> 2) & 1, true);
         } else {
           Rec &t = *evs[old[sub % (int)old.size()]];
           if (watch == 1 && !do_initialize(t, f, t.mask, t.oneshot)) break;
@@ -567,12 +607,13 @@ struct Run {
         auto t = pick_event(self, a.tk, a.sel); if (!t || fds[t->fdi].w < 0) break;
         bool was_enabled = t->enabled, was_oneshot = t->oneshot, fired_before = t->fires > 0;
         bool want = (a.arg & 3) == 0 ? !was_oneshot : (a.arg & 3) == 1 ? was_oneshot : (a.arg & 3) == 2;
-        int old_mask = t->mask, new_mask = old_mask;
-        switch ((a.arg >> 3) & 7) {
-          case 1: new_mask = kR; break; case 2: new_mask = kW; break; case 3: new_mask = kR | kW; break;
-          case 4: new_mask = (old_mask == kR) ? kW : (old_mask == kW) ? kR : (old_mask == (kR | kW)) ? kR : kW; break;   // swap / narrow
-          case 5: new_mask = old_mask | kR | kW; break;                                                                // widen
-          case 6: new_mask = 0; break;
+        int old_mask = t->mask, rw = old_mask & (kR | kW), new_mask = old_mask;
+        switch ((a.arg >> 3) & 7) {   // 1..6 work on the read/write part and keep a subscribed kExceptEvent
+          case 1: new_mask = kR | (old_mask & kE); break; case 2: new_mask = kW | (old_mask & kE); break; case 3: new_mask = kR | kW | (old_mask & kE); break;
+          case 4: new_mask = ((rw == kR) ? kW : (rw == kW) ? kR : (rw == (kR | kW)) ? kR : kW) | (old_mask & kE); break;   // swap / narrow
+          case 5: new_mask = old_mask | kR | kW; break;                                                                  // widen
+          case 6: new_mask = old_mask & kE; break;
+          case 7: new_mask = old_mask ^ kE; break;                                                                       // subscribe / unsubscribe kExceptEvent
           default: break;
         }
         new_mask = fix_mask(fds[t->fdi].kind, new_mask);
@@ -609,6 +650,7 @@ struct Run {
     bool real = r->ev->isEnabled();
     if (r->oneshot) {
       if (real) { fail("one-shot " + evname(*r) + " is still enabled inside its callback"); return; }
+      r->enabled = true; note_retire(*r);
       r->enabled = false; fl.oneshot_fired = true;
     } else if (!real) { fail("isEnabled() is false on entry to the callback of persistent " + evname(*r)); return; }
     FdSt &f = fds[r->fdi];
@@ -622,6 +664,7 @@ struct Run {
     for (auto &o : evs) if (o.get() != r.get() && o->fdi == r->fdi && o->fired_pass == pass) fl.shared_fd_fired = true;
     r->fired_pass = pass;
     if (f.gen > 0) fl.cb_on_recycled = true;
+    if (zero_active && r->fdi == zero_idx && f.w == 0) fl.cb_on_fd0 = true;
     trace[pass].push_back({r->idx, m});
     fl.callbacks++;
     int k = r->fires++; if (k > 3) k = 3;
@@ -721,7 +764,7 @@ struct Run {
 
 std::string show(std::vector<std::pair<int, int>> v) {
   std::string s = "{";
-  for (auto &p : v) { char b[32]; snprintf(b, sizeof b, "%sev%d:%s%s", s.size() > 1 ? " " : "", p.first, (p.second & kR) ? "R" : "", (p.second & kW) ? "W" : ""); s += b; }
+  for (auto &p : v) { char b[32]; snprintf(b, sizeof b, "%sev%d:%s%s%s", s.size() > 1 ? " " : "", p.first, (p.second & kR) ? "R" : "", (p.second & kW) ? "W" : "", (p.second & kE) ? "E" : ""); s += b; }
   return s + "}";
 }
 
@@ -783,6 +826,10 @@ std::string run(const Scenario &s, CaseInfo &info) {
   info.cls_if(fl.remode_fresh, "reinit_mode_change_before_first_callback");
   info.cls_if(fl.init_twice, "initialize_twice_at_creation");
   info.cls_if(fl.remode_in_cb, "reinit_in_place_inside_callback");
+  info.cls_if(fl.except_mask, "event_subscribes_kExceptEvent");
+  info.cls_if(fl.e_retired_w_sibling, "kExceptEvent_subscriber_retired_on_descriptor_with_write_subscriber");
+  info.cls_if(d.zero != 0, "harness_descriptor_on_number_0");
+  info.cls_if(fl.cb_on_fd0, "callback_on_descriptor_number_0");
   info.cls_if(fl.remask, "reinit_same_fd_new_mask");
   info.cls_if(fl.remask_in_cb, "reinit_same_fd_new_mask_inside_callback");
   info.cls_if(fl.remask_sibling_in_cb, "cb_reinits_sibling_on_same_descriptor_with_new_mask");
@@ -859,7 +906,7 @@ SubDef def = [] {
       auto mk = [&v](int code, std::vector<int64_t> a) { Op o; o.code = code; o.a = std::move(a); v.push_back(std::move(o)); };
       // a third of the cases only uses actions that keep the case order-independent (differential volume)
       bool independent = rng(0, 2) == 0;
-      mk(CFG, {rng(0, 1), rng(0, 119), 0});
+      mk(CFG, {rng(0, 1), rng(0, 119) + (rng(0, 5) == 0 ? 120 * rng(1, 5) : 0), 0});
       int nf = (int)pick({{4, 2}, {4, 3}, {2, 4}, {1, 5}});
       std::vector<int> kind(nf);
       for (int i = 0; i < nf; ++i) { kind[i] = (int)pick({{4, PIPE_R}, {1, PIPE_W}, {4, SOCK}}); mk(FD, {kind[i]}); }
@@ -868,7 +915,7 @@ SubDef def = [] {
       for (int i = 0; i < ne; ++i) {
         int64_t f = i < nf && rng(0, 2) ? i : rng(0, nf - 1);   // most descriptors get an event, several share one
         evfd[i] = (int)f;
-        mk(EV, {f, pick({{6, 0}, {2, 1}, {3, 2}, {0 + (rng(0, 15) == 0), 3}}), pick({{7, 0}, {3, 1}}), pick({{16, 0}, {2, 1}, {2, 2}, {0 + (rng(0, 3) == 0), 3}})});
+        mk(EV, {f, pick({{12, 0}, {4, 1}, {6, 2}, {0 + (rng(0, 7) == 0), 3}, {3, 4}, {3, 5}, {2, 6}, {0 + (rng(0, 3) == 0), 7}}), pick({{7, 0}, {3, 1}}), pick({{16, 0}, {2, 1}, {2, 2}, {0 + (rng(0, 3) == 0), 3}})});
       }
       int actor_fd = (int)rng(0, nf - 1);   // independent family: only this descriptor's callbacks act beyond their own event
       auto action = [&](bool local_only) -> std::vector<int64_t> {
@@ -891,10 +938,10 @@ SubDef def = [] {
         if (a == A_REMODE) {   // half of them with a new mask, mostly on a sibling of the same descriptor
           bool remask = rng(0, 1);
           int64_t tkr = remask ? pick({{9, T_SAMEFD}, {2, T_HOT}, {1, T_COLD}, {1, T_RAW}, {2, T_SELF}}) : pick({{2, T_SAMEFD}, {2, T_HOT}, {1, T_COLD}, {1, T_RAW}, {4, T_SELF}});
-          return {a, tkr, rng(0, 15), rng(0, 7) + (remask ? 8 * pick({{1, 1}, {3, 2}, {1, 3}, {6, 4}, {1, 5}, {1, 6}}) : 0)};
+          return {a, tkr, rng(0, 15), rng(0, 7) + (remask ? 8 * pick({{1, 1}, {3, 2}, {1, 3}, {6, 4}, {1, 5}, {1, 6}, {2, 7}}) : 0)};
         }
         int64_t tk = a == A_REMODE ? pick({{2, T_SAMEFD}, {2, T_HOT}, {1, T_COLD}, {1, T_RAW}, {4, T_SELF}}) : pick({{3, T_SAMEFD}, {6, T_HOT}, {2, T_COLD}, {2, T_RAW}, {1, T_SELF}});
-        return {a, tk, rng(0, 15), a == A_READ ? (rng(0, 1) ? rng(0, 8) : rng(0, 2999)) : rng(0, 15)};
+        return {a, tk, rng(0, 15), a == A_READ ? (rng(0, 1) ? rng(0, 8) : rng(0, 2999)) : rng(0, 15) + (a == A_CREATE && rng(0, 3) == 0 ? 16 : 0)};
       };
       int ncb = (int)rng(ne, 3 * ne);
       for (int i = 0; i < ncb; ++i) {
